@@ -135,6 +135,10 @@ Proof.
   - apply popitem_none in E. subst. simpl. destruct (Nat.eqb i _); reflexivity.
 Qed.
 
+Lemma ob_facts : forall o, (ob qst o = true -> ob ast o = true) /\ (ob ast o = true -> ob pst o = true) /\
+  (ob jt o = true -> ob ast o = true).
+Proof. destruct o as [[]|]; simpl; auto. Qed.
+
 Section Rel.
 Variable R2R : list (str * str).
 Variable ERR : str.
@@ -250,7 +254,10 @@ Qed.
 
 Lemma step_T : forall s a, INV s -> T (cstep R2R ERR reqs s a).
 Proof.
-  intros s [t a] [HT [H0 [H3 [HC [HK [HX H5]]]]]]. unfold T, I0, I3, CL, K, TXS in *. unfold cstep; simpl. destruct t.
+  intros s [t a] [HT [H0 [H3 [HC [HK [HX H5]]]]]]. unfold T, I0, I3, CL, K, TXS in *. unfold cstep; simpl.
+  pose proof (ob_facts (dT s)) as [FT1 [FT2 FT3]]. pose proof (ob_facts (dR s)) as [FR1 [FR2 FR3]].
+  pose proof (ob_facts (dU s)) as [FU1 [FU2 FU3]].
+  destruct t.
   - Time (unf; brk; intros j Hw He; specialize (HT j); finM).
   - Time (unf; brk; intros j Hw He; specialize (HT j); finM).
   - intros j. specialize (HT j). unfold waiting in HT.
